@@ -470,10 +470,10 @@ PLAN = [
     ("iwls", "qt", 1, "dict", "default", "free", "post", "x", None, 9, 60),
     ("iwls", "nn", 1, "liesel", "default", "forced", "post", "x", None, 6, 40),
     ("iwls", "pois", 1, "liesel", "default", "forced", "post", "x", None, 6, 40),
-    ("iwls", "vg", 2, "dict", "default", "forced", "post", "x", None, 3, 18),
-    ("iwls", "vp", 2, "dict", "default", "forced", "post", "x", None, 3, 18),
-    ("iwls", "p2", 2, "dict", "default", "forced", "post", "x", None, 3, 18),
-    ("iwls", "vp", 2, "dict", "const", "forced", "post", "x", None, 3, 18),
+    ("iwls", "vg", 2, "dict", "default", "forced", "post", "x", None, 2, 18),
+    ("iwls", "vp", 2, "dict", "default", "forced", "post", "x", None, 2, 18),
+    ("iwls", "p2", 2, "dict", "default", "forced", "post", "x", None, 2, 18),
+    ("iwls", "vp", 2, "dict", "const", "forced", "post", "x", None, 2, 18),
     ("iwls", "vg", 3, "dict", "default", "forced", "post", "x", None, 1, 8),
     ("iwls", "vp", 3, "dict", "default", "forced", "post", "x", None, 2, 12),
     ("iwls", "vp", 3, "dict", "default", "free", "post", "ba", None, 6, 30),
@@ -495,8 +495,8 @@ PLAN = [
     ("mh", "qt", 1, "dict", "default", "forced", "post", "x", "lin", 6, 40),
     ("mh", "qt", 1, "dict", "default", "free", "post", "x", "ar", 9, 60),
 ]
-# at most this many accepted free-stream vector IWLS transitions get (expensive) R-lemmas
-FREE_VEC_CAP = {True: 2, False: 12}
+# at most this many accepted free-stream vector IWLS transitions PER KEY LAYOUT get (expensive) R-lemmas
+FREE_VEC_CAP = {True: 1, False: 8}
 
 CORPUS = [
     # the Coq witnesses of Properties/C06.v replayed on the code: standard normal target, s = 1, 0 -> 1
@@ -883,11 +883,11 @@ def lemmas_of(i, c):
 
 def emit(ctx, cases):
     items = []
-    nfree = 0
+    nfree = {}
     for i, c in enumerate(cases):
         if c["kernel"] == "iwls" and c.get("mode") == "free" and len(c["x"]) > 1 and c["moved"]:
-            nfree += 1
-            if nfree > FREE_VEC_CAP[ctx.quick]:
+            nfree[c["keys"]] = nfree.get(c["keys"], 0) + 1
+            if nfree[c["keys"]] > FREE_VEC_CAP[ctx.quick]:
                 ctx.hist("accepted free-stream vector IWLS transitions checked by the oracle only (R-lemma budget)")
                 continue
         ls = lemmas_of(i, c)
